@@ -191,8 +191,9 @@ def run(prog, R):
         R.ob("C18.3-failure-is-diagnostic", "include_error => insert_error(from_io_error(kind), path node)", frm, ana.at, "")
         reps = [bi for bi, t in ana.calls() if (ana.callee_of(t) or "").endswith("mem::replace")]
         dom = ana.dominators()
-        okr = len(reps) == 2 and reps[0] in dom[reps[1]] and all(reps[1] in dom[e] for e in ana.exits())
-        R.ob("C18.2-per-file-error-lists", "the error list is swapped in at entry and swapped back before every return", okr, ana.at, f"mem::replace call blocks {reps}")
+        swaps = [bi for bi, t in ana.calls() if (ana.callee_of(t) or "").endswith(("mem::swap", "mem::take", "mem::replace"))]
+        okr = len(reps) == 2 and len(swaps) == 2 and reps[0] in dom[reps[1]] and all(reps[1] in dom[e] for e in ana.exits())
+        R.ob("C18.2-per-file-error-lists", "the error list is swapped in at entry and swapped back before every return", okr, ana.at, f"mem::replace call blocks {reps}; all swap/take/replace call blocks {swaps} (exactly the entry/exit pair may exchange the error list)")
         el = any(c[0].endswith("SemanticErrorList::new") and "file_path" in show(c[1][0]) for p in ps for c in p.calls)
         R.ob("C18.2-per-file-error-lists", "the list for an included file is created with that file's path", el, ana.at, "")
         pe = any(c[0].endswith("Context::push_errors_from_included_file") for p in ps for c in p.calls)
@@ -209,6 +210,16 @@ def run(prog, R):
     else:
         R.ob("ANCHOR", "include pre-pass / analyser", False)
     R.premises(prog, "C18.2-in-place-premise", ["C06:C06.4-", "C07:C07.1-"], "an included file is analysed as if written in place: state that crosses the include boundary (pending annotations, open scopes) is handled by the same code as inside one file")
+    # diagnostics of files at any include depth are reported: the queries over the tree of error lists recurse
+    for qfn in ("oq3_semantics::semantic_error::SemanticErrorList::any_semantic_errors",):
+        qb = prog.body(qfn)
+        if qb is None:
+            R.ob("ANCHOR", qfn, False)
+            continue
+        cone = prog.cone([qfn])
+        rec = any((prog.body(f).callee_of(t) or "") == qfn for f in cone if prog.body(f) for _, t in prog.body(f).calls())
+        incl = any((prog.body(f).callee_of(t) or "").endswith("include_errors") for f in cone if prog.body(f) for _, t in prog.body(f).calls())
+        R.ob("C18.3-failure-is-diagnostic", "any_semantic_errors recurses into the lists of included files", rec and incl, qb.at, f"recursive call: {rec}; walks include_errors(): {incl} (a diagnostic two include levels down must make the program erroneous)")
     # ---- C18.4 below-global include
     st = prog.body(S2S + "stmt_to_asg_stmt")
     if st:
